@@ -174,4 +174,10 @@ def special(r):
     if k < 0.9:
         n = r.choice([3, 30, 60])
         return "".join(f"def f{i}(a):\n    return a + {i}\n" for i in range(n)) + "".join(f"db.Setting = f{i}({i})\n" for i in range(n))
+    if k < 0.95:
+        # number literals of extreme size (Python refuses to print ints of more than 4300 digits), in positions
+        # where the value is used, printed in an error message, or folded
+        n = r.choice([17, 400, 4299, 4300, 4301, 5000, 20000])
+        lit = r.choice(["0x" + "f" * n, "9" * n, "0b" + "1" * n, "1" + "0" * n + ".5", "1e" + "9" * min(n, 6), "0." + "0" * n + "1"])
+        return r.choice(["x = nofunc({0})\n", "db.Setting = {0}\n", "x = {0}\ny = undefined_name + x\n", "db.Setting = {0} + 1\n", "db.Setting = HASH({0})\n", "def f(a):\n    return a\ndb.Setting = f({0}, {0})\n", "d0.Setting = -{0} % 7\n"]).format(lit)
     return "x = " + repr("y" * r.choice([10, 10000, 200000])) + "\n"
